@@ -94,11 +94,16 @@ def run (st : St) (args : List String) : St × String :=
   | ["sg.reset"] => ({}, "ok")
   | ["sg.conn"] => ({ st with conns := st.conns ++ [{}] }, toString st.conns.length)
   | ["sg.observe", _] => (st, "ok")   -- statistics and tracing wrap the channel of a message: the user table is keyed by connection
-  -- a subscription whose registration fails is undone (Tie.C13 subscribe_flow: the count, the handler id, the
-  -- local handler): the connection is what it was
+  -- a subscription whose registration fails is undone (Model/Signals `regFail`; Props/C13
+  -- failed_registration_gives_back, subscriber_after_a_failure_registers): the count and the lock are given back, the
+  -- local handler is removed; the next subscriber registers with the server again
   | ["sg.subfail", k] =>
     match st.conns[k.toNat!]? with
-    | some c => if c.c.refs == 0 && c.c.op.isNone then (st, "failed") else (st, "bad-op")
+    | some c =>
+      if c.c.refs == 0 && c.c.op.isNone then
+        let si := c.c.subs.length
+        (setConn st k.toNat! { c with c := leave (regFail (enter (attach c.c) si)) si }, "failed")
+      else (st, "bad-op")
     | none => (st, "bad-op")
   | ["sg.hold", k] =>
     match st.conns[k.toNat!]? with
@@ -195,6 +200,11 @@ def run (st : St) (args : List String) : St × String :=
   | ["sg.other", k] =>
     -- a registration for another signal of the object on this connection: its reply is other traffic; the user table
     -- gets an entry that no emission of this signal concerns (Props/C13: remove_keeps_others, no_cross_signal)
+    match st.conns[k.toNat!]? with
+    | some c => (setConn st k.toNat! { c with c := drain (noise c.c) }, "ok")
+    | none => (st, "bad-op")
+  | ["sg.unother", k] =>
+    -- that registration is given up: again other traffic; the entries of the signal itself stay (remove_keeps_others)
     match st.conns[k.toNat!]? with
     | some c => (setConn st k.toNat! { c with c := drain (noise c.c) }, "ok")
     | none => (st, "bad-op")
